@@ -10,7 +10,7 @@ func init() {
 	extraLemmaFuncs = append(extraLemmaFuncs, "capnp.canonicalPtr", "capnp.Canonicalize")
 	Register(&Spec{
 		ID:          "C18",
-		Explanation: "Decides structural necessary conditions of canonicalisation: (R1) the data-only bulk-copy path of canonicalList is taken only for lists that are neither composite nor pointer-bearing, so composite lists always get a tag word and per-element truncation; (R2) every struct emitted (root, pointer fields, every composite-list element) is sized by canonicalStructSize of its source, and the composite list's element size is the maximum of its elements' canonical sizes; (R3) capabilities are rejected with an error and the output is the data of one fresh single-segment message; (R4) children are allocated in pre-order (a child is allocated by canonicalPtr after its parent and before the next sibling, then linked), and every error propagates. Does NOT decide byte-identity across layouts or idempotence as value-level facts.",
+		Explanation: "Decides structural necessary conditions of canonicalisation: (R1) the data-only bulk-copy path of canonicalList is taken only for lists that are neither composite nor pointer-bearing, so composite lists always get a tag word and per-element truncation; (R2) every struct emitted (root, pointer fields, every composite-list element) is sized by canonicalStructSize of its source, and the composite list's element size is the maximum of its elements' canonical sizes; (R3) capabilities are rejected with an error and the output is the data of one fresh single-segment message; (R4) children are allocated in pre-order (a child is allocated by canonicalPtr after its parent and before the next sibling, then linked), and every error propagates. (R4e) no error test on a value already known to be nil whose branch handles another, untested error. Does NOT decide byte-identity across layouts or idempotence as value-level facts.",
 		Run:         runC18,
 	})
 }
